@@ -11,6 +11,8 @@ namespace sim
     // randomise=false gives a LIFO (still ASLR-independent) layout. limit_bytes caps the arena
     // (std::bad_alloc beyond it) so that runaway allocation ends cleanly.
     void start(uint64_t seed, bool randomise, size_t limit_bytes = 0);
+    void *pool_alloc(size_t n); // a separate fixed-address LIFO pool for one kind of object (see layout.cpp)
+    void pool_free(void *p);
     void stop();
     bool active();
     void suspend(); // nestable: allocations go to malloc (used around z3 and harness-internal work)
